@@ -248,4 +248,33 @@ PROPS["C07"] = {
     "rule": "all 16 gate types x parameter sweep x (random, boundary, generated, perturbed) rows x evaluators; distinct = distinct request lines",
 }
 
+def judge_plonk_verdict(d):
+    a, b = d["impl"], d["model"]
+    if a == "ACCEPT" and b != "ACCEPT":
+        return f"the implementation ACCEPTS a proof that the PLONK verifier model rejects ({b}): a check is missing or weakened"
+    if b == "ACCEPT" and a != "ACCEPT":
+        return f"the implementation rejects ({a}) a proof the verifier model accepts"
+    if a == "PANIC" and b != "PANIC":
+        return f"the implementation panics where the model returns {b}"
+    return f"verdict/stage differs: implementation {a}, model {b}"
+
+
+PLONK_TB = KERNEL_TB + [
+    "modelled, not verified: plonk/verifier.rs, validate_shape.rs, get_challenges.rs, vanishing_poly.rs (eval_vanishing_poly, check_lookup_constraints), util/partial_products.rs, gates/gate.rs filters, circuit_data.rs get_fri_instance, fri/verifier.rs transcribed by hand (P2/Model/Plonk.lean, Fri.lean, Gates.lean); Poseidon config only",
+    "NOT proved (cryptographic idealisations): FRI proximity soundness, Fiat-Shamir in the random-oracle model, collision resistance of Poseidon (explicit disjunct in C12's theorems)",
+]
+
+PROPS["C03"] = {
+    "lean_modules": ["P2.Props.C03"],
+    "audit_module": "P2.Audit.C03",
+    "harness_prop": "c03",
+    "profile": "release",
+    "judge": judge_plonk_verdict,
+    "trusted_base": PLONK_TB,
+    "level_text": "Lean 4 model of the complete PLONK verifier with theorems on its decision logic (acceptance = shape AND identity for challenges recomputed from statement+proof AND every FRI/Merkle check; shape acceptance pins every list length; the preprocessed cap is taken from the verifier data); tied to CircuitData::verify by exact verdict-and-stage agreement on honest proofs and on per-element tampering / list surgery / foreign verifier data generated by a generic walk over the proof's serde tree; plus the property's oracle on the implementation at standard strength (every edited element rejected)",
+    "level_note": "Trusted: Lean kernel, standard axioms, hand transcription tied by exact agreement of two deterministic verifiers. Acceptance 'by luck' is excluded by comparing exact verdicts on weak configs and asserting REJECT only at standard strength. Compressed-form tampering is covered under C16/C18.",
+    "assumptions": ["FRI proximity soundness", "random oracle", "collision resistance (explicit disjunct)"],
+    "rule": "accepted proofs of generated programs (>= 2^6 rows, with hashing/lookups/random access per feature bits) under few-query configs: for every class of JSON leaf (caps, each opening list, leaves, siblings, step evals, final poly, pow witness, public inputs) a few positions x {+1, 0/1, random}; 3 surgeries per array class; foreign verifier data; standard-strength sweep of every 7th element (thorough: every element); distinct = distinct request lines",
+}
+
 NOT_CLAIMED = {}
